@@ -39,24 +39,24 @@ type Obligation struct {
 }
 
 type Engine struct {
-	drifted map[string]string // function -> why its contract no longer fits its shape (undischarged obligations are then undecided, not violations)
-	repo    string
-	fset    *token.FileSet
-	prog    *ssa.Program
-	ppkgs   map[string]*packages.Package
-	spkgs   map[string]*ssa.Package
-	cs      *ContractSet
-	lits    map[string]string
-	litDefs map[string][]string
-	obls    map[string]*Obligation
-	oblOrd  []string
-	workdir string
-	notes   map[string]bool // unmodelled constructs met (reported as assumptions)
-	used    map[string]bool // trusted contracts / axioms relied upon
-	srcs    map[string][]byte
-	tables  map[string]*tableDef
-	errors  []string
-	mu      sync.Mutex
+	drifted            map[string]string // function -> why its contract no longer fits its shape (undischarged obligations are then undecided, not violations)
+	repo               string
+	fset               *token.FileSet
+	prog               *ssa.Program
+	ppkgs              map[string]*packages.Package
+	spkgs              map[string]*ssa.Package
+	cs                 *ContractSet
+	lits               map[string]string
+	litDefs            map[string][]string
+	obls               map[string]*Obligation
+	oblOrd             []string
+	workdir            string
+	notes              map[string]bool // unmodelled constructs met (reported as assumptions)
+	used               map[string]bool // trusted contracts / axioms relied upon
+	srcs               map[string][]byte
+	tables             map[string]*tableDef
+	errors             []string
+	mu                 sync.Mutex
 	funcsUnderContract map[string]bool
 	constGlobals       map[*ssa.Global]bool
 	knownOpen          map[string]bool // obligations listed as known findings: not worth the second solver round
@@ -912,7 +912,6 @@ func renameIdents(s string, m map[string]string) string {
 		return t
 	})
 }
-
 
 // renumberLoops: loop clauses are keyed by the ordinal the loop had when the contract was written and
 // carry that loop's header text. When the loops of the function have been reordered (a block moved up
